@@ -187,16 +187,20 @@ class Constraints:
     @asdict.setter
     def asdict(self, constraints):
         assert isinstance(constraints, dict)
-        self.clear()
-        if constraints is None:
-            return
-        for con_name, con_value in constraints.items():
-            if hasattr(self, con_name) and isinstance(
-                getattr(self, "_" + con_name), _Constraint
-            ):
-                setattr(self, con_name, con_value)
-            else:
-                raise DiffcalcException(f"Invalid constraint name: {con_name}")
+        saved = [con.value for con in self._all]
+        try:
+            self.clear()
+            for con_name, con_value in constraints.items():
+                if hasattr(self, con_name) and isinstance(
+                    getattr(self, "_" + con_name), _Constraint
+                ):
+                    setattr(self, con_name, con_value)
+                else:
+                    raise DiffcalcException(f"Invalid constraint name: {con_name}")
+        except Exception:
+            for con, value in zip(self._all, saved):
+                con.value = value
+            raise
 
     @property
     def astuple(self) -> Tuple[Union[Tuple[str, float], str], ...]:
@@ -222,24 +226,28 @@ class Constraints:
     @astuple.setter
     def astuple(self, constraints: Tuple[Union[Tuple[str, float], str], ...]) -> None:
         assert isinstance(constraints, tuple)
-        self.clear()
-        if constraints is None:
-            return
-        for el in constraints:
-            if (
-                isinstance(el, str)
-                and hasattr(self, el)
-                and isinstance(getattr(self, "_" + el), _Constraint)
-            ):
-                setattr(self, el, True)
-            elif (
-                isinstance(el, (type(("a", 1)), type(("a", 1.0))))
-                and hasattr(self, el[0])
-                and isinstance(getattr(self, "_" + el[0]), _Constraint)
-            ):
-                setattr(self, *el)
-            else:
-                raise DiffcalcException(f"Invalid constraint parameter: {el}")
+        saved = [con.value for con in self._all]
+        try:
+            self.clear()
+            for el in constraints:
+                if (
+                    isinstance(el, str)
+                    and hasattr(self, el)
+                    and isinstance(getattr(self, "_" + el), _Constraint)
+                ):
+                    setattr(self, el, True)
+                elif (
+                    isinstance(el, (type(("a", 1)), type(("a", 1.0))))
+                    and hasattr(self, el[0])
+                    and isinstance(getattr(self, "_" + el[0]), _Constraint)
+                ):
+                    setattr(self, *el)
+                else:
+                    raise DiffcalcException(f"Invalid constraint parameter: {el}")
+        except Exception:
+            for con, value in zip(self._all, saved):
+                con.value = value
+            raise
 
     def _get_factory(self, con: _Constraint) -> Callable[[], Union[float, bool, None]]:
         def _get_constraint() -> Optional[Union[float, bool, None]]:
@@ -259,10 +267,11 @@ class Constraints:
     def _set_factory(
         self, con: _Constraint
     ) -> Callable[[Union[float, bool, None]], None]:
-        def _set_value(val: Union[float, bool]) -> None:
+        def _set_value(val: Union[float, bool], dry_run: bool = False) -> None:
             if isinstance(val, bool):
                 if con._type is _con_type.VOID:
-                    con.value = val
+                    if not dry_run:
+                        con.value = val
                     return
                 else:
                     raise DiffcalcException(
@@ -271,7 +280,9 @@ class Constraints:
                     )
             if con._type is _con_type.VALUE:
                 try:
-                    con.value = radians(float(val))
+                    new_value = radians(float(val))
+                    if not dry_run:
+                        con.value = new_value
                     return
                 except ValueError:
                     raise DiffcalcException(
@@ -314,6 +325,7 @@ class Constraints:
             elif num_active_con == 1:
                 # If we have only one constraint in the requested category.
                 # We'll replace it with the new constraint.
+                _set_value(val, dry_run=True)
                 existing_con = active_con.pop()
                 existing_con.value = None
             _set_value(val)
